@@ -3,7 +3,23 @@
 //! Each "world" binds one TLA+ module to the real crates: it executes
 //! behaviours / cases emitted by TLC against the implementation and
 //! compares the projected real state with the specification's state.
+pub mod account_world;
 pub mod eventlog_world;
 pub mod summary;
 pub mod term;
 pub mod tree_world;
+pub mod values;
+
+/// Short stable hash of a string (keys of distinct cases).
+pub fn short_hash(s: &str) -> String {
+    let h = sos_core::commit::CommitTree::hash(s.as_bytes());
+    hex::encode(&h[..8])
+}
+
+/// Audit providers must be configured once per process in release builds.
+pub fn init_audit(dir: &std::path::Path) {
+    let _ = std::fs::create_dir_all(dir);
+    sos_backend::audit::init_providers(vec![sos_backend::audit::new_fs_provider(
+        dir.join("audit.dat"),
+    )]);
+}
